@@ -70,7 +70,7 @@ CLAIMED = {
         engine="store", category="model_checking", design_ref="DESIGN.md §7 C13",
         technique="TLA+ specs RdfStore.tla (set semantics of every lookup) and MC_RdfIndex.tla (index mechanism mirrors the set, model-checked by TLC); recorded histories of the real RdfStore validated by TLC with the full projection after every call; SparqlSem.tla, an executable definition of the SPARQL algebra, evaluated by TLC as the oracle for generated queries and updates run through execute_sparql",
         text="TLC checks that the subject/predicate/object index mechanism mirrors the set over all histories of the bounded model; every call result and the complete projection (find for all 48 bound/unbound patterns, triples_with_*, term listings, len, stats, contains, find_with_pending) of random insert/remove/clear/transactional-buffer histories on the real store, with and without the object index, over IRIs / blank nodes / plain, language-tagged and typed literals, is validated against the set semantics, each result once. SPARQL: histories of INSERT DATA / DELETE DATA and generated SELECT queries (1-3 triple patterns with shared variables and variable predicates, FILTER =, !=, <, >, BOUND, OPTIONAL, UNION nested to depth 2, DISTINCT, ORDER BY, LIMIT, COUNT(*)); TLC computes the solution multiset and compares.",
-        note="SPARQL terms are IRIs, plain strings and small integers under a fixed predicate schema; property paths, sub-queries, GRAPH, other aggregates and CONSTRUCT / ASK are not generated."),
+        note="SPARQL terms are IRIs, plain strings and small integers under a fixed predicate schema; updates are INSERT / DELETE DATA, DELETE WHERE (1-2 patterns), DELETE-INSERT-WHERE with generated templates and CLEAR; property paths, sub-queries, GRAPH, other aggregates and CONSTRUCT / ASK are not generated."),
     "C20": dict(
         engine="conc", category="model_checking", design_ref="DESIGN.md §7 C20",
         technique="TLA+ specs RdfConc / TxConc / BufMgr / LpgConc (one action per critical section) and LpgLocks (one action per lock acquisition) model-checked by TLC over all interleavings; real threads run under a yield-point controller (cfg grafeo_verif) with enumerated, random and TLC-counterexample schedules; recorded schedules validated against the specs by TLC; free-running threads (commit rounds, begin/commit/gc loops, LpgStore program rounds) judged by FcwHistory.tla / LpgConc LinObs; looping mutator pairs under a watchdog for deadlocks",
@@ -78,24 +78,24 @@ CLAIMED = {
         note="Granularity = yield points between critical sections; sequential consistency assumed. LpgLocks scopes are hand-transcribed (bound to the code by the looping stress only). Tiered-storage variants, catalog, WAL, query cache, statistics refresh and HNSW are not modelled (sub-claims uncovered)."),
     "C01": dict(
         engine="txn", category="model_checking", design_ref="DESIGN.md §7 C01",
-        technique="TLA+ spec Mvcc.tla (as-is MVCC mechanism + ideal snapshot views) explored by TLC; TLC-generated behaviours replayed through real sessions; recorded histories validated by TLC with every read kind of every session after every step",
+        technique="TLA+ specs Mvcc.tla (as-is MVCC mechanism + ideal snapshot views) and RdfTx.tla (triples under transactions: buffer mechanism with deviation switches vs snapshot definition) explored by TLC; TLC-generated behaviours replayed through real sessions; recorded histories validated by TLC with every read kind of every session after every step",
         text="Every observation (label scan, unlabelled scan with projection, point lookup of every id, 1-hop expand, neighbour listings, counts) of every session after every action of thousands of generated and random multi-session histories must equal the as-is mechanism model or the ideal snapshot view; any third behaviour is a violation. Observations that equal the mechanism but not the ideal are the listed known findings (dirty reads etc.), whose witnesses are re-executed on every run.",
-        note="Sessions are driven from one thread; one property key, two labels, one edge type. The tree violates C01 in the listed ways (known_findings.json); a different deviation is reported."),
+        note="Sessions are driven from one thread; one property key, two labels, one edge type; triples over 3 subjects x 2 predicates x 3 objects through SPARQL (INSERT / DELETE DATA, DELETE WHERE, DELETE-INSERT-WHERE, CLEAR; full dump and one triple pattern per session after every action). The tree violates C01 in the listed ways (known_findings.json); a different deviation is reported."),
     "C02": dict(
         engine="txn", category="model_checking", design_ref="DESIGN.md §7 C02",
-        technique="same Mvcc.tla machinery as C01 with rollback / drop / refused-commit heavy histories; full dump through all access paths compared after every step",
+        technique="same Mvcc.tla and RdfTx.tla machinery as C01 (TLC model checking + trace validation) with rollback / drop / refused-commit heavy histories; full dump through all access paths compared after every step",
         text="After every rollback, session drop, commit and refused commit the full projection through all access paths, for a fresh view and every open session, is validated by TLC against Mvcc.tla (mechanism or ideal); rollback residue that is not one of the listed known findings is a violation.",
         note="As C01."),
     "C05": dict(
         engine="wal", category="model_checking", design_ref="DESIGN.md §7 C05",
         technique="TLA+ spec Wal.tla model-checked by TLC (3 durability modes, rotation, checkpoints, crashes, bit flips); traces of a real persistent GrafeoDB with WAL hook events validated against it",
         text="TLC proves Consistent/RecoveryOk for the repaired WAL design on the bounded model and shows each deviation switch breaks it; close/reopen cycles with checkpoints anywhere under Sync/Batch/NoSync/Adaptive on the real database are validated event by event (per-file appended/flushed/fsynced record counts from the hook, recovered full dump = the dump of the required history position, fresh identifiers).",
-        note="Prefix states are the live database's own dumps. Rotation is model-only (64 MB in the engine). Never-logged mutations are known findings with witnesses."),
+        note="Prefix states are the live database's own dumps. Log rotation is exercised on the real code with the size limit lowered through the cfg(grafeo_verif) hook, in histories without close / checkpoint. Never-logged mutations are known findings with witnesses."),
     "C06": dict(
         engine="wal", category="model_checking", design_ref="DESIGN.md §7 C06",
         technique="Wal.tla crash/bit-flip actions model-checked by TLC; real crash images (every record boundary, torn records, every byte in thorough) and single-bit flips opened on copies, results validated by TLC",
         text="For every explored history and crash point the harness builds crash images between the last fsync (hook) and the on-disk length of every log file, plus single-bit corruptions, opens each, and TLC checks: open succeeds, recovered dump is the dump of a prefix, no shorter than the durable prefix, and continuation crash->open->writes->close->open stays consistent.",
-        note="fsync points come from the hook; the OS is assumed to keep fsynced bytes and to lose any suffix of un-fsynced bytes."),
+        note="fsync points come from the hook; the OS is assumed to keep fsynced bytes and to lose any suffix of un-fsynced bytes. Multi-file logs (rotation every ~400 bytes through the hook) include the images of a crash inside rotate()."),
     "C03": dict(
         engine="txn", category="model_checking", design_ref="DESIGN.md §7 C03",
         technique="TLA+ spec TxManager.tla model-checked by TLC; TLC-generated behaviours replayed on the real TransactionManager and recorded traces validated against the spec by TLC",
